@@ -576,8 +576,8 @@ class LibModel:
                             nxt.append((s5, acc + [(kv[0], kv[1])]))
                 cur = nxt
             for s3, pairs in cur:
-                if all(isinstance(k, (C, ZV)) and (not isinstance(k, ZV) or k.ty == 'int') and
-                       isinstance(v, ZV) and v.ty == 'hv' for k, v in pairs):
+                if all(((isinstance(k, C) and isinstance(k.v, int) and not isinstance(k.v, bool)) or (isinstance(k, ZV) and k.ty == 'int'))
+                       and isinstance(v, ZV) and v.ty == 'hv' for k, v in pairs):
                     m = Z.ZMap.empty()
                     for k, v in pairs:
                         m = m.store(eng.as_int(k), v.t)
